@@ -87,6 +87,19 @@ func VerifC11GroupHandoff() {
 			}()
 		}
 	}
+	// some members leave (in join order), either after the arrivals have been dealt with or while they arrive
+	leavers := zzverif.Choice("leavers", n+1)
+	leave := func() {
+		for i := 0; i < leavers; i++ {
+			_ = ms[i].ln.Close()
+			ms[i].left = true
+		}
+	}
+	concurrent := leavers > 0 && zzverif.Bool("leaveWhileArriving")
+	if concurrent {
+		go leave()
+		zzverif.Reach("C11.handoff.concurrent-leave")
+	}
 	// user connections arrive at the shared endpoint
 	k := 1 + zzverif.Choice("users", 2)
 	var users []*c11Conn
@@ -100,11 +113,8 @@ func VerifC11GroupHandoff() {
 		}
 	}
 	zzverif.Quiesce()
-	// some members leave (in join order); the others stay
-	leavers := zzverif.Choice("leavers", n+1)
-	for i := 0; i < leavers; i++ {
-		_ = ms[i].ln.Close()
-		ms[i].left = true
+	if !concurrent {
+		leave()
 	}
 	zzverif.Quiesce()
 
